@@ -90,8 +90,22 @@ func RunCase(goderive string, c *Case, v Variant, dir string) (*Obs, error) {
 			return nil, err
 		}
 	}
+	srcs2 := c.Sources2()
+	if len(srcs2) > 0 {
+		if err := os.MkdirAll(filepath.Join(dir, "q"), 0o755); err != nil {
+			return nil, err
+		}
+		for n, s := range srcs2 {
+			if err := os.WriteFile(filepath.Join(dir, "q", n), []byte(s), 0o644); err != nil {
+				return nil, err
+			}
+		}
+	}
 	args := append(append([]string{}, c.GoderiveArgs...), v.Args()...)
 	args = append(args, "./p")
+	if len(srcs2) > 0 {
+		args = append(args, "./q")
+	}
 	ctx, cancel := context.WithTimeout(context.Background(), 60*time.Second)
 	defer cancel()
 	cmd := exec.CommandContext(ctx, goderive, args...)
@@ -147,6 +161,9 @@ func RunCase(goderive string, c *Case, v Variant, dir string) (*Obs, error) {
 		obs.OtherCh = after[c.OtherFile] != srcs[c.OtherFile]
 	}
 	readBack(obs, c, files, pdir)
+	if len(srcs2) > 0 {
+		readBack2(obs, c, filepath.Join(dir, "q"))
+	}
 	return obs, nil
 }
 
@@ -262,6 +279,51 @@ func readBack(obs *Obs, c *Case, files []FileSpec, pdir string) {
 			obs.Derived = string(b)
 			obs.Canon = canonical(fset, df)
 		}
+	}
+}
+
+// readBack2: the second package of the invocation: parsed, type-checked, canonical form appended.
+func readBack2(obs *Obs, c *Case, qdir string) {
+	fset := token.NewFileSet()
+	var asts []*ast.File
+	var df *ast.File
+	ents, _ := os.ReadDir(qdir)
+	for _, e := range ents {
+		if !strings.HasSuffix(e.Name(), ".go") {
+			continue
+		}
+		f, err := parser.ParseFile(fset, filepath.Join(qdir, e.Name()), nil, parser.ParseComments)
+		if err != nil {
+			if obs.TypeErr == "" {
+				obs.TypeErr = "parse: " + err.Error()
+			}
+			return
+		}
+		asts = append(asts, f)
+		if e.Name() == "derived.gen.go" {
+			df = f
+		}
+	}
+	var firstErr error
+	conf := types.Config{Importer: importer.ForCompiler(fset, "source", nil), Error: func(err error) {
+		if firstErr == nil {
+			firstErr = err
+		}
+	}}
+	_, _ = conf.Check("t/q", fset, asts, nil)
+	if firstErr != nil && obs.TypeErr == "" {
+		obs.TypeErr = firstErr.Error()
+	}
+	if df == nil {
+		if obs.TypeErr == "" {
+			obs.TypeErr = "second package q: no derived.gen.go"
+		}
+		return
+	}
+	if c.KeepDerived {
+		b, _ := os.ReadFile(filepath.Join(qdir, "derived.gen.go"))
+		obs.Derived += "\n// ---- package q\n" + string(b)
+		obs.Canon = append(append(obs.Canon, "---- package q"), canonical(fset, df)...)
 	}
 }
 
